@@ -81,7 +81,8 @@ ReadAtom(p, k) ==
          ELSE LET e == LitEnd(p, k1, k1) IN <<AtomN("chr", SubSeq(p, k1, e - 1)), e, "">>
 
 RECURSIVE Digits(_, _, _)
-Digits(p, k, acc) == IF IsDigit(At(p, k)) /\ acc < 100000 THEN Digits(p, k + 1, acc * 10 + (At(p, k) - 48))
+Digits(p, k, acc) == IF IsDigit(At(p, k))       \* the accumulator saturates above NREPS (rejected afterwards)
+                     THEN Digits(p, k + 1, IF acc <= NREPS THEN acc * 10 + (At(p, k) - 48) ELSE acc)
                      ELSE <<acc, k>>
 
 (* the repetition suffixes of rnode_atom *)
@@ -244,7 +245,7 @@ AtomEnd(n, i, cx) ==
          [] n.t = "wend" -> IF i # 1 /\ IsWordCp(prev) /\ (c = 0 \/ ~IsWordCp(c)) THEN {i} ELSE {}
 
 IsAtom(n) == n.t \in {"chr", "any", "brk", "beg", "end", "wbeg", "wend"}
-SetCap(c, g, so, eo) == IF g >= 1 /\ g < NGRPS \div 2 /\ g <= Len(c) THEN [c EXCEPT ![g] = <<so, eo>>] ELSE c
+SetCap(c, g, so, eo) == IF g >= 1 /\ g < NGRPS /\ g <= Len(c) THEN [c EXCEPT ![g] = <<so, eo>>] ELSE c
 
 (* all parses of node n from position i with captures c, in the engine's order of preference;
    each element is <<end position, captures>> *)
